@@ -107,7 +107,14 @@ impl C04 {
                         let max = if fld.len >= 8 { u64::MAX } else { (1u64 << (fld.len * 8)) - 1 };
                         let top = if fld.len == 1 { 0xFF } else { 0x1FF };
                         let mut vals: Vec<u64> = (0..=top).filter(|v| !declared.contains(v)).collect();
-                        for sp in [max, max - 1, max >> 1, (max >> 1) + 1, 0x1_0000 & max, 0x100_0000 & max] {
+                        let mut specials = vec![max, max - 1, max >> 1, (max >> 1) + 1, 0xFF, 0x100, 0x7FFF, 0x8000, 0xFFFF, 0x1_0000, 0xFF_FFFF, 0x100_0000, 0x7FFF_FFFF, 0x8000_0000, 0xFFFF_FFFF, 0x1_0000_0000];
+                        for d in declared.iter().take(8) {
+                            for bit in [8u32, 16, 24, 31, 32, 63] {
+                                specials.push(d | (1u64 << bit));
+                            }
+                        }
+                        for sp in specials {
+                            let sp = sp & max;
                             if !declared.contains(&sp) && !vals.contains(&sp) {
                                 vals.push(sp);
                             }
@@ -364,9 +371,18 @@ impl Check for C04 {
         // L site?
         if let Some(size) = fixed {
             if f.plain.len() == size {
-                let lens: Vec<usize> = (0..=size + 8).filter(|l| *l != size).collect();
+                // lengths next to the right one first, then the rest
+                let mut lens: Vec<usize> = Vec::new();
+                for d in 1..=(size + 8) {
+                    if size >= d {
+                        lens.push(size - d);
+                    }
+                    if d <= 8 {
+                        lens.push(size + d);
+                    }
+                }
                 let pick = match slot {
-                    Some(s) if s >= 36 => Some(((s - 36) as usize * 7 + (shape as usize)) % lens.len()),
+                    Some(s) if s >= 36 => Some(((s - 36) as usize + 12 * (shape as usize)) % lens.len()),
                     Some(_) => None,
                     None => Some(cf.below(lens.len() as u64) as usize),
                 };
